@@ -103,6 +103,37 @@ def _height_and_width(self):
     return _WINSZ(ws_row=t.h, ws_col=t.w, ws_xpixel=None, ws_ypixel=None)
 
 
+_term_templates = {}
+_orig_term_init = blessed.Terminal.__init__
+
+
+def _memo_term_init(self, kind=None, stream=None, force_styling=False, *a, **kw):
+    """blessed.Terminal construction costs ~1.5 ms, almost all of it capability tables
+    that depend only on (kind, force_styling) for a non-tty stream.  Build those once
+    per process and per argument tuple and give every further instance its own shallow
+    copy (fresh mutable containers, its own stream).  Everything curtsies uses on the
+    object (capability strings, move, location, fullscreen) is real blessed code.
+    CURTSIES_VERIF_NO_MEMO=1 turns this off; `check selftest determinism` compares both."""
+    from .kernel import SimOut
+    if a or kw or not isinstance(stream, SimOut):
+        return _orig_term_init(self, kind, stream, force_styling, *a, **kw)
+    key = (kind, force_styling)
+    tpl = _term_templates.get(key)
+    if tpl is None:
+        _orig_term_init(self, kind, stream, force_styling)
+        _term_templates[key] = dict(self.__dict__)
+        return
+    d = dict(tpl)
+    d["_stream"] = stream
+    d["errors"] = list(tpl["errors"])
+    for k, v in tpl.items():
+        if type(v) is dict and k.startswith("_") and not v:
+            d[k] = {}
+    import collections
+    d["_keyboard_buf"] = collections.deque()
+    self.__dict__.update(d)
+
+
 def install():
     global _installed
     if _installed:
@@ -122,6 +153,8 @@ def install():
         _saved[(mod, name)] = getattr(mod, name)
         setattr(mod, name, val)
     _saved[(ci, "READ_SIZE")] = ci.READ_SIZE
+    if not _os.environ.get("CURTSIES_VERIF_NO_MEMO"):
+        blessed.Terminal.__init__ = _memo_term_init
 
 
 def bind(world, kernel, encoding="utf-8", read_size=None):
